@@ -154,11 +154,21 @@ ValidSpec(n, items) ==
 RunShapes(n) == IF n = 3 THEN {<<3, 4, 2>>, <<4, 3, 3>>}
                 ELSE IF n = 4 THEN {<<3, 2, 3, 2>>, <<2, 3, 2, 4>>} ELSE {}
 RunRanks  == {1, 2, 3}
-RunInits  == {"svd", "random"}
+RunInits  == {"svd", "random", "user"}     \* "user": an entrywise non-negative CP tensor supplied by the caller
 RunOuter  == {1, 2, 5}
 RunInner  == {1, 10}         \* never 0: admm(n_iter_max=0) raises UnboundLocalError before returning
 RunData   == {"signed", "sparse", "allneg"}
+(* fixed_modes ("A list of modes for which the initial value is not modified.  The last mode cannot *)
+(* be fixed"): every subset of the modes 0..n-2, so at least the last mode stays free.  A fixed     *)
+(* mode's factor is the initial value by that documentation (C14's obligation), so a constraint     *)
+(* requested on a fixed mode imposes NOTHING on the returned factor; every free requested mode      *)
+(* keeps the obligation Assign gives it, whatever is fixed around it.                               *)
+RunFixed(n) == {SortedSeq(S) : S \in SUBSET (0..(n - 2))}
+RunVia    == {"function", "class"}      \* constrained_parafac(...) / ConstrainedCP(...).fit_transform
+ValidFixed(n, f) == /\ \A j \in 1..Len(f) : f[j] \in 0..(n - 2)
+                    /\ \A j \in 1..(Len(f) - 1) : f[j] < f[j + 1]
 ValidRun(n, r) == /\ r.shape \in RunShapes(n) /\ r.rank \in RunRanks /\ r.init \in RunInits
+                  /\ ValidFixed(n, r.fixed) /\ r.via \in RunVia
                   /\ r.outer \in RunOuter /\ r.inner \in RunInner /\ r.data \in RunData
 \* exceptions that are numerical break-downs of the linear algebra, not a statement about constraints
 NumericFailure == {"LinAlgError"}
@@ -305,7 +315,7 @@ Init == \/ cfg \in {[op |-> "root", n |-> n, first |-> <<it>>] : <<n, it>> \in U
         \/ cfg \in {[op |-> "root", n |-> n, first |-> <<>>] : n \in Orders}
         \/ cfg \in {[op |-> "colroot", x |-> x] : x \in Columns}
         \/ cfg \in {[op |-> "col4", x |-> x] : x \in [1..4 -> ColVals]}
-        \/ cfg \in {[op |-> "rundomain", n |-> n, shapes |-> RunShapes(n), ranks |-> RunRanks, inits |-> RunInits,
+        \/ cfg \in {[op |-> "rundomain", n |-> n, shapes |-> RunShapes(n), ranks |-> RunRanks, inits |-> RunInits, fixed |-> RunFixed(n), via |-> RunVia,
                      outer |-> RunOuter, inner |-> RunInner, data |-> RunData] : n \in Orders}
 Next == \/ /\ cfg.op = "root"
            /\ \/ cfg' = SpecState(cfg.n, cfg.first)
